@@ -38,7 +38,11 @@ func GenProgram(t *rapid.T, o GenOpts) *Program {
 		g.nextID++
 		trows = append(trows, dbh.Row{dbh.IntV(g.nextID), dbh.IntV(rapid.Int32Range(0, 4).Draw(t, "k")), dbh.StrV(g.uniq())})
 	}
+	p.Stats = o.Joins && rapid.Bool().Draw(t, "stats")
 	nu := rapid.IntRange(2, 5).Draw(t, "nrows_u")
+	if p.Stats {
+		nu = rapid.SampledFrom([]int{3, 8, 20, 30}).Draw(t, "nrows_u_big") // a larger inner table makes the index join the cheaper plan
+	}
 	for i := 0; i < nu; i++ {
 		urows = append(urows, dbh.Row{dbh.IntV(int32(100 + i)), dbh.IntV(rapid.Int32Range(0, 4).Draw(t, "uk"))})
 	}
@@ -70,14 +74,14 @@ func (g *gen) genStep(t *rapid.T, o GenOpts, nIDs int) Step {
 	switch kind {
 	case 0: // sequential scan (predicate written with OR)
 		return Step{S: &dbh.Stmt{Kind: "select", Table: "t", Cols: all, Where: deadOr(dbh.Leaf("k", "=", kv("c")))}}
-	case 1: // index point
-		return Step{S: &dbh.Stmt{Kind: "select", Table: "t", Cols: all, Where: dbh.Leaf("k", "=", kv("c"))}}
+	case 1: // index point (through the optimizer's plan, or through an explicit point-scan plan)
+		return Step{S: &dbh.Stmt{Kind: "select", Table: "t", Cols: all, Where: dbh.Leaf("k", "=", kv("c"))}, Point: rapid.Bool().Draw(t, "point")}
 	case 2: // index range
 		a := rapid.Int32Range(0, 4).Draw(t, "a")
 		b := a + rapid.Int32Range(0, 3).Draw(t, "span")
 		return Step{S: &dbh.Stmt{Kind: "select", Table: "t", Cols: all, Where: dbh.And(dbh.Leaf("k", ">=", dbh.IntV(a)), dbh.Leaf("k", "<=", dbh.IntV(b)))}}
 	case 3: // by id
-		return Step{S: &dbh.Stmt{Kind: "select", Table: "t", Cols: all, Where: dbh.Leaf("id", "=", id("rid"))}}
+		return Step{S: &dbh.Stmt{Kind: "select", Table: "t", Cols: all, Where: dbh.Leaf("id", "=", id("rid"))}, Point: rapid.Bool().Draw(t, "point")}
 	case 4: // full table
 		return Step{S: &dbh.Stmt{Kind: "select", Table: "t", Cols: all}}
 	case 5:
